@@ -14,7 +14,7 @@ import random
 from fractions import Fraction as F
 
 from vmon import hooks, corpus, env
-from vmon.oracle import geom
+from vmon.oracle import geom, hbft
 from vmon.oracle import c08_tents as T
 from vmon.oracle import c08_hbeval as E
 
@@ -508,6 +508,12 @@ def run_case(case, ctx):
                     ctx.violation({"kind": "master-reproduction", "what": "metric", "tag": tag},
                                   "metric %s at master %s: %d in the master, %d in the built font (tolerance %.2f)" % (tag, m["name"], mvl, vvl, tol),
                                   {"case": case["id"], "master": m["name"], "user": m["user_f"], "hb_norm": nV})
+        if "VORG" in V.tags and "VORG" in M.tags and "vmtx" in V.tags and "vmtx" in M.tags:
+            _vertical_metrics(case, ctx, m, V, M, common, vidx, midx, sparse)
+        # FreeType advances: unlike HarfBuzz, FreeType takes a composite's advance from the component that carries
+        # USE_MY_METRICS, so a flag the builder should have cleared shows up here although HVAR is right
+        if flavour == "glyf" and hbft.freetype is not None:
+            _freetype_advances(case, ctx, m, vfb, V, common, vidx, midx, ms, sens, sparse, hv_b)
         # sharp values: kerning, anchors and MVAR metrics at 1/64 unit (HarfBuzz rounds at the font scale)
         _hires_values(case, ctx, m, vfb, nV, steps, tnames, vf, mfont, sparse, feats, gd_b, mv_b, worst)
         # shaping
@@ -543,6 +549,52 @@ def run_case(case, ctx):
                   "axes": [{k: a[k] for k in ("tag", "min", "default", "max", "map")} for a in axes],
                   "masters": [{"name": m["name"], "user": m.get("user_f"), "sparse": m.get("sparse")} for m in masters][:8],
                   "table_builders": dict(_cur["tables"]), "worst_observed": worst, "tables": sorted(V.tags)}
+
+
+def _vertical_metrics(case, ctx, m, V, M, common, vidx, midx, sparse):
+    """vertical advances (vmtx + VVAR) and vertical origins (VORG + VVAR.VOrgMap) through HarfBuzz: the master's own
+    integer value against the built font's rounded value: 0.5 delta rounding + 0.5 engine rounding, + 1 for the location"""
+    for n in common:
+        if n in sparse:
+            continue
+        gv, gm = vidx[n], midx[n]
+        for what, fv, fm in (("vertical-advance", V.h.v_advance(gv), M.h.v_advance(gm)),
+                             ("vertical-origin-y", V.h.font.get_glyph_v_origin(gv)[1], M.h.font.get_glyph_v_origin(gm)[1])):
+            ctx.judged()
+            ctx.note("vertical-metrics-judged")
+            if abs(fv - fm) > 2:
+                ctx.violation({"kind": "master-reproduction", "what": what, "flavour": "CFF2"},
+                              "glyph %s at master %s: %s %d in the master, %d in the built font" % (n, m["name"], what, fm, fv),
+                              {"case": case["id"], "master": m["name"], "user": m["user_f"], "glyph": n})
+
+
+_ftc = {}
+
+
+def _freetype_advances(case, ctx, m, vfb, V, common, vidx, midx, ms, sens, sparse, hv_b):
+    key = id(vfb)
+    if _ftc.get("key") != key:
+        _ftc.clear()
+        _ftc.update({"key": key, "data": vfb, "ft": hbft.FT(vfb)})
+    ft = _ftc["ft"]
+    ft.set_coords([m["user_f"][t] for t, lo, df, hi in V.axes])
+    for n in common:
+        if n in sparse:
+            continue
+        am = ms["adv"][midx[n]]
+        if am in (-1, 0xFFFF) or (m.get("adv_sentinel") and n in sparse):
+            continue
+        _, af = ft.outline_points(vidx[n])
+        # master advance (integer) vs FreeType's integer advance of the built font: delta rounding 0.5 + engine rounding 0.5,
+        # one more unit for FreeType's own 16.16 coordinate normalisation, + the measured location sensitivity
+        tol = 2.0 + sens["adv"][vidx[n]] + hv_b
+        ctx.judged()
+        ctx.note("freetype-advances-judged")
+        if abs(af - am) > tol + 1e-9:
+            ctx.violation({"kind": "master-reproduction", "what": "advance-freetype", "flavour": "glyf"},
+                          "glyph %s at master %s: advance %d in the master, FreeType reads %d from the built font (tolerance %.2f; HarfBuzz reads %d)"
+                          % (n, m["name"], am, af, tol, V.h.h_advance(vidx[n])),
+                          {"case": case["id"], "master": m["name"], "user": m["user_f"], "glyph": n})
 
 
 HIRES = 64
